@@ -351,7 +351,7 @@ def _tasks_for(pid, tier):
         out = []
         for v in variants("source"):
             ty, tk, sc = v % 3, (v // 3) % 3, v // 9
-            if sc >= 9:       # scripts on the default (NULL) target: the target coordinate is ignored by the harness, run them once
+            if sc in (9, 10, 11, 12):       # scripts on the default (NULL) target: the target coordinate is ignored by the harness, run them once
                 if tk == 0:
                     out += ds("source", (2 if sc == 9 else 1) + (0 if q else 1), [v], jobs=6)
                 continue
@@ -361,9 +361,9 @@ def _tasks_for(pid, tier):
             elif q:
                 if (sc == 0 and (tk == 1 or ty == 0)) or sc == 6 or sc == 7:
                     out += ds("source", 1, [v], jobs=8)
-                elif sc == 8:          # activation racing the merges on a pool target: ~10^2 schedules at k=0, 3*10^4 at k=1
+                elif sc == 8 or sc == 13:          # activation racing the merges / self-suspending handler on a pool target: ~10^2 schedules at k=0, 3*10^4 at k=1
                     out += ds("source", 0, [v], jobs=4)
-            elif sc == 8:
+            elif sc == 8 or sc == 13:
                 out += ds("source", 1, [v], jobs=8)
             else:
                 out += ds("source", 1 if sc == 3 else 2, [v], jobs=8)
